@@ -52,6 +52,8 @@ type Req struct {
 	Req  string `json:"req"`
 	Dev  bool   `json:"dev,omitempty"`  // devDependencies / <scope>test</scope>
 	Prop string `json:"prop,omitempty"` // Maven only: version is written as ${Prop}, property Prop = Req
+	// npm only: the dependency is declared under this alias: "<Alias>": "npm:<Name>@<Req>".
+	Alias string `json:"alias,omitempty"`
 	// Maven only: <classifier>/<type> of the dependency, so that one package can legally be required twice.
 	Classifier string `json:"classifier,omitempty"`
 	Type       string `json:"type,omitempty"`
@@ -160,6 +162,10 @@ func (c *Case) packageJSON() []byte {
 		var lines []string
 		for _, r := range c.Manifest {
 			if r.Dev == dev {
+				if r.Alias != "" {
+					lines = append(lines, fmt.Sprintf("    %q: %q", r.Alias, "npm:"+r.Name+"@"+r.Req))
+					continue
+				}
 				lines = append(lines, fmt.Sprintf("    %q: %q", r.Name, r.Req))
 			}
 		}
